@@ -163,8 +163,8 @@ package netceptor
 //@     invariant R: (rangeindex == -1 ? result == 1 : result == 0)
 //@   site call forwardMessage FWD: [C02 C10 C12] requires fwaccept(acqof("firewallLock", fwdec(s, md))) && md.ToNode != s.nodeID && arg1 == md
 //@   site call dispatchReservedService RSV: [C12] requires fwaccept(acqof("firewallLock", fwdec(s, md))) && md.ToNode == s.nodeID
-//@   site call sendUnreachable NOTICE: [C12 C16] requires arg1 == md.FromNode && echoes(arg2, md) && md.FromService != "unreach" &&
-//@        ( (acqof("firewallLock", fwdec(s, md)) == 2 && arg2.Problem == ProblemRejected)
+//@   site call sendUnreachable NOTICE: [C12 C16] requires arg1 == md.FromNode && echoes(arg2, md) &&
+//@        ( (acqof("firewallLock", fwdec(s, md)) == 2 && md.FromService != "unreach" && arg2.Problem == ProblemRejected)
 //@       || (fwaccept(acqof("firewallLock", fwdec(s, md))) && old(md.ToNode == s.nodeID) && md.FromNode != s.nodeID && arg2.Problem == ProblemServiceUnknown
 //@           && acqof("listenerLock", !(md.ToService in s.listenerRegistry) || ctxerr(s.listenerRegistry[md.ToService].context) != nil)) )
 //@   ensures ATMOSTONE: [C02] ownsends() <= 1
